@@ -38,7 +38,7 @@ LEVELS = {
     'C10': _mk('proof', 'Lean theorems about build_file setup/finish (FB.Spec.bfSetup/bfFinish, shared by FB.Impl) + contract predicates on the real code',
                'Proved for all states: success only if the target is a regular file, failure leaves no file at the target and propagates the same exception (or notCreated), the function starts with the target absent and hidden. ' + _TIEDESC +
                'Real-code predicates right after every call: file present / parents are directories on success, target absent after failure, absolute normalised path passed, target absent at start.',
-               'mkdir faults at each level are not injected yet.'),
+               'mkdir faults at each level: see C14.'),
     'C12': _mk('proof', 'Lean theorems about clean (FB.Spec.preClean = FB.Impl.clean) + differential runs',
                'Proved for all trees and records: clean changes only recorded outputs that are files, the cache file and recorded created directories, and only by removing them; no-op without cache file; idempotent; the implementation model cleans with the same function. ' + _TIEDESC +
                'clean inserted at random positions of generated histories: tree equals the model, foreign snapshot unchanged.'),
@@ -50,7 +50,7 @@ LEVELS = {
                'The classification "which bytes are unreadable" (gzip/json) is the real code\'s; the model receives the class.'),
     'C16': _mk('translation_validation', 'cache file content against FB.Impl records (decoded) + value round trip across builds',
                'Return values of every JSON shape and outputs with awkward legal names: the decoded cache file must equal the model\'s record forest; values served from the cache equal type-exactly the from-scratch values; unchanged rebuilds invoke nothing new. ' + _TIEDESC,
-               'Cache-write failure injection is not built yet.'),
+               'Cache-write failure: see C14 (write-cache fault).'),
     'C18': _mk('proof', 'Lean theorems about FB.Json + exhaustive small-scope/random differential runs of JsonUtil',
                'Proved for all values: sanitize yields a value with no tuples, string keys only and distinct keys; is idempotent; rejects exactly the non-JSON values; is_equal is reflexive on sanitized values, equates 1 and 1.0 and lists with tuples, separates bools from numbers. Tie: sanitize/is_equal/to_hashable of /repo agree with FB.Json and with json.loads(json.dumps(v)) on all values up to a size bound over the collision atom set and random deep values; symmetry, transitivity, hashable-iff-equal and freshness are evaluated on the real functions.',
                'symmetry/transitivity/to_hashable_iff are not yet theorems; json module and float repr trusted; NaN excluded.'),
@@ -62,7 +62,10 @@ LEVELS['C09'] = _mk('exploration', 'systematic schedule exploration of the real 
 LEVELS['C17'] = _mk('exploration', 'systematic schedule exploration of a straggler thread against the owner returning, every builder method x builder kind',
     'For each of 12 builder methods x {root, subbuild, build_file} builder: (a) a call that starts after the owner returned must raise RuntimeError with no effect; (b) every schedule with at most 2 (quick) / 3 (thorough) preemptions of the straggler against the owner: a fenced call must not have run its function, left files or reached the cache, and a call that completed before the close must be in the closed record. No Lean protocol model yet: exploration, not proof.',
     'Known finding D10 (check-then-act on the finished flag for build_file/subbuild stragglers) is reported as KNOWN-FINDING by signature.')
+LEVELS['C14'] = _mk('fault_enumeration', 'single OSError injected at the k-th mutating library call; model with the corresponding call failing in setup as oracle',
+    'For every committed build step of generated histories the harness counts the mutating file-system calls the library makes (mkdir, makedirs, rename, replace, rmdir in _make_room, open-for-write and write of the cache file; installed from outside) and re-runs the history with an OSError at the k-th call (quick: 2 sampled k per build; thorough: every k). The call in progress is identified and the models are run with "the setup of that build_file/subbuild fails once" (or "the build aborts before the function / at the cache write"): the error must surface, a propagated error must leave the pre-build snapshot (bytes, mtime, inode), a caught one must give the same values, tree and later builds as FB.Spec/FB.Impl with that call failed, no temp dir may be left. '
+    'No theorem is specific to C14 yet.',
+    'Errors the library swallows by design in best-effort clean-ups (_remove_empty_dirs, restore_all) are not injected.')
 NOT_YET = {
     'C11': 'aliasing: the heap model and the alias slice are not built yet',
-    'C14': 'fault injection at library syscalls is not built yet',
 }
